@@ -27,7 +27,7 @@ def run(ctx):
     mon = monitors.Monitors(ctx, F)
     mon.attach_hist_bins()
     path = os.path.join(ctx.tmpdir, 'c19.fcs')
-    n = 90 if ctx.tier == 'quick' else 2500
+    n = 90 if ctx.tier == 'quick' else 8000
     for cid, rng in ctx.cases([('s', i) for i in range(n)]):
         mon.cid = cid
         isint = rng.random() < 0.8
@@ -114,4 +114,7 @@ def run(ctx):
         s = fresh()
         o = core.attempt(lambda: s.hist_bins([0, 1] if D > 1 else [0], 10, ['linear', 'bogus'][:min(D, 2)] if D > 1 else ['bogus']))
         ctx.check(o.raised, 'refusal:unknown-scale-accepted', cid, scale='list with bogus')
+    # the repository's own tests as a workload under the same monitors (their assertions are not the oracle)
+    from rv import suite_workload
+    suite_workload.run_repo_suite(ctx, mon, modules=('test_io.py', 'test_gate.py'))
     mon.detach()
